@@ -43,12 +43,13 @@ type c13state struct {
 	peeks    []peeked
 	copies   [][]byte // results of ReadBinary, overwritten with '#' by the caller: they are the caller's for good
 	// writer
-	pending []byte // written, not yet flushed (model)
-	flushed []byte // must have been received by the peer
-	rx      []byte
-	zc      [][]byte // zero-copy buffers handed to WriteBinary, valid until flush
-	ops     int
-	dead    bool
+	pending  []byte // written, not yet flushed (model)
+	flushed  []byte // must have been received by the peer
+	rx       []byte
+	zc       [][]byte // zero-copy buffers handed to WriteBinary, valid until flush
+	released [][]byte // zero-copy buffers of earlier flushes: the application's own memory again
+	ops      int
+	dead     bool
 }
 
 func (s *c13state) checkPeeks(after string) bool {
@@ -491,9 +492,16 @@ func (st *c13state) writeOp(tp *core.Tape, flushes *int, failAtFlush int) {
 				z[i] = '!'
 			}
 		}
+		st.released = append(st.released, st.zc...)
 		st.zc = nil
 	}
 	arm := func() {
+		// the application goes on using the buffers it got back at an earlier flush: they are its own memory
+		for _, z := range st.released {
+			for i := range z {
+				z[i] = '%'
+			}
+		}
 		if failAtFlush >= 0 && *flushes >= failAtFlush && st.sc.FailWrite == nil {
 			st.sc.FailWrite = &net.OpError{Op: "write", Net: "tcp", Err: syscall.EPIPE}
 			ep.Fault("write-error")
@@ -628,6 +636,7 @@ func runC13NetWriter(ep *core.Episode) {
 	var want []byte    // everything flushed successfully so far
 	var pending []byte // written since the last flush
 	var held [][]byte  // slices handed to WriteBinary: the caller keeps them unchanged until Flush
+	var released [][]byte
 	sizes := []int{1, 2, 10, 100, 1000, 3000, 4095, 4096, 4097, 5000, 8192, 20000}
 	nops := 3 + tp.Choose("nwops", 60)
 	tag := byte(1)
@@ -669,6 +678,12 @@ func runC13NetWriter(ep *core.Episode) {
 			}
 			ep.Logf("#%d WriteBinary(%d)", i, n)
 		case 2:
+			// the caller goes on using the slices it got back at earlier flushes: they are its own memory
+			for _, z := range released {
+				for j := range z {
+					z[j] = '%'
+				}
+			}
 			before := len(sink.data)
 			err := w.Flush()
 			flushes++
@@ -692,6 +707,9 @@ func runC13NetWriter(ep *core.Episode) {
 			}
 			want = append(want, got...)
 			pending = pending[:0]
+			if len(released) < 40 {
+				released = append(released, held...)
+			}
 			held = held[:0]
 		}
 	}
